@@ -19,7 +19,7 @@ from mc.core import Tally
 LOOK_EVERY = 24
 
 ID = "C08"
-TECHNIQUE = ("exhaustive walk of the (record x algorithm class x estimation setting x transformation x fresh copy / same array "
+TECHNIQUE = ("exhaustive walk of the (record x algorithm class (SSIcov also with the uncertainty bounds switched on) x estimation setting x transformation x fresh copy / same array "
              "object re-used) lattice; every element "
              "is a pair of complete runs through SingleSetup / MultiSetup_PreGER whose whole result tables are compared under "
              "the stated covariance relation (metamorphic oracle, pole tables as per-order multisets with one-to-one matching)")
@@ -46,14 +46,26 @@ ASSUMPTIONS = [
     "accumulating, so later steps are composite transformations of the untouched record), all runs of a sequence directly "
     "after one another in one process with identical settings; orthogonal mixing is not part of these sequences (it needs "
     "the MPC/MPD criteria switched off in the original run as well); integer-count records are not re-used in place",
+    "uncertainty bounds (SSIcov, 'cov_mm', calc_unc=True, single setup - the only place the library offers them): the number "
+    "of data blocks nb rotates with the setting over (8, 20); the hard criterion on the frequency variance ('cov_max', a "
+    "threshold in Hz^2, i.e. a dimensional user setting like the selected frequencies) is given as 0.2 x k^2 when the record is "
+    "declared at k x fs; these runs are judged on the tables every variant is judged on (unit largest component, pole tables, "
+    "extraction); the variance tables themselves are property C17's business - the frequency variance of matched poles is only "
+    "observed (max_observed_error), not judged, because its propagation is ill-conditioned for orders close to the Hankel rank",
     "a difference of labels or of the NaN pattern is not judged when the harness, recomputing the criterion from the "
-    "original table, finds it within 1e3 x tolerance of its threshold (knife edge); every other difference is a violation",
+    "original table, finds it within 1e3 x tolerance of its threshold (knife edge); every other difference is a violation; "
+    "with the uncertainty bounds on, an order column whose pole counts differ is not judged when the run reporting more poles "
+    "holds at least as many poles with a frequency variance within 1 % of cov_max as the counts differ (the propagated variance "
+    "is reproducible to ~3e-3 only for orders close to the Hankel rank; never met in the quick tier)",
 ]
 
 FS = 102.4         # a non-integer sampling rate
 TOL = {"ssi": 1e-8, "fdd": 1e-9, "plscf": 1e-4}
 TOL_FIT = 1e-6
 TOL_UNIT = 1e-12
+NB_UNC = (8, 20)    # number of data blocks of the uncertainty estimate, rotating with the setting
+VAR_EDGE = 1e-2     # knife edge of the variance criterion (relative distance of a frequency variance to cov_max)
+COV_MAX = 0.2       # hard criterion on the frequency variance, Hz^2 at the original sampling rate
 
 GAINS = (1e-6, -1.0, 1e3, 1e6)
 TIMES = (0.01, 0.5, 7.0, 100.0)
@@ -196,6 +208,9 @@ VARIANTS = {
     "SSIcov(cov_mm)": ("SSIcov", "ssi", dict(method="cov_mm")),
     "SSIcov(cov_R)": ("SSIcov", "ssi", dict(method="cov_R")),
     "SSIcov(cov_mm,ref)": ("SSIcov", "ssi", dict(method="cov_mm", ref_ind=[0, 2])),
+    # uncertainty bounds switched on (only legal for SSIcov with the 'cov_mm' Hankel matrix, single setup); nb is set per setting
+    "SSIcov(cov_mm,unc)": ("SSIcov", "ssi", dict(method="cov_mm", calc_unc=True)),
+    "SSIcov(cov_mm,ref,unc)": ("SSIcov", "ssi", dict(method="cov_mm", ref_ind=[0, 2], calc_unc=True)),
     "SSIdat": ("SSIdat", "ssi", dict()),
     "SSIdat(ref)": ("SSIdat", "ssi", dict(ref_ind=[2, 1])),
     "pLSCF(per)": ("pLSCF", "plscf", dict(method_SD="per")),
@@ -221,6 +236,12 @@ def settings(fam, thorough):
     return [dict(nxseg=n, ordmax=o) for n, o in (((256, 6), (256, 12), (512, 6), (512, 12)) if thorough else ((256, 6), (512, 12)))]
 
 
+def unc_blocks(setting):
+    """Number of data blocks of the uncertainty estimate for a setting: rotates with the position in the thorough list."""
+    full = settings("ssi", True)
+    return NB_UNC[(full.index(setting) if setting in full else 0) % len(NB_UNC)]
+
+
 class Run:
     """One run through a setup: result tables and the extraction results."""
 
@@ -237,6 +258,9 @@ def execute(variant, setting, tr_kind, data, fs, refs, k, seed, nch, look=None):
         kw["ref_ind"] = refs
     if fam in ("ssi", "plscf"):
         kw["hc"] = hc_for(tr_kind, fam)
+    if kw.get("calc_unc"):
+        kw["nb"] = unc_blocks(setting)
+        kw["hc"]["cov_max"] = COV_MAX * k ** 2      # the same threshold (Hz^2) in the declared time unit
     alg = getattr(A, cls)(name="a", **kw, **setting)
     if ms:
         ss = MultiSetup_PreGER(fs=fs, ref_ind=refs, datasets=data)
@@ -272,6 +296,10 @@ def execute(variant, setting, tr_kind, data, fs, refs, k, seed, nch, look=None):
         if fam == "plscf":
             r.freq, r.Sy = np.array(res.freq), np.array(res.Sy)
         r.sc = dict(alg.run_params.sc)
+        r.unc = bool(kw.get("calc_unc"))
+        if r.unc:
+            r.Fn_cov = np.array(res.Fn_poles_cov, float)
+            r.cov_max = float(kw["hc"]["cov_max"])
         try:
             order = "find_min" if fam == "ssi" else int(r.Fn.shape[1] - 1)
             ss.mpe("a", sel_freq=list(f_true), order=order, rtol=5e-2)
@@ -290,7 +318,7 @@ def unit_check(t, Phi, where, case, axis=-1):
     ok = np.all(np.isfinite(P), axis=1)
     P = P[ok]
     if not len(P):
-        return
+        return 0
     t.validated += len(P)
     k = np.argmax(np.abs(P), axis=1)
     e = np.abs(P[np.arange(len(P)), k] - 1.0)
@@ -298,8 +326,9 @@ def unit_check(t, Phi, where, case, axis=-1):
     if not e.max() <= TOL_UNIT:
         i = int(np.argmax(e))
         t.violation(f"unit-component:{where}", f"largest component of a reported shape is {P[i, k[i]]!r}", case)
-    else:
-        t.outcomes["unit largest component verified"] += len(P)
+        return 0
+    t.outcomes["unit largest component verified"] += len(P)
+    return len(P)
 
 
 def renorm_pairs(A, B):
@@ -342,14 +371,24 @@ def compare_poles(t, r0, r1, L, k, tol, where, case):
     if r0.Fn.shape != r1.Fn.shape or r0.Phi.shape != r1.Phi.shape or r0.Lab.shape != r1.Lab.shape:
         t.violation(f"table-shape:{where}", f"{r0.Fn.shape}/{r0.Phi.shape} vs {r1.Fn.shape}/{r1.Phi.shape}", case)
         return
-    unit_check(t, r0.Phi, where, case)
-    unit_check(t, r1.Phi, where, case)
+    nu = unit_check(t, r0.Phi, where, case) + unit_check(t, r1.Phi, where, case)
+    if getattr(r0, "unc", False) and nu:
+        t.outcomes["uncertainty bounds on: unit largest component verified (pole tables)"] += nu
     npoles = 0
     for o in range(r0.Fn.shape[1]):
         p0 = present(r0.Fn[:, o], r0.Xi[:, o], r0.Phi[:, o, :])
         p1 = present(r1.Fn[:, o], r1.Xi[:, o], r1.Phi[:, o, :])
         t.transitions += 1
         n0, n1 = int(p0.sum()), int(p1.sum())
+        if n0 != n1 and getattr(r0, "unc", False):
+            # knife edge of the variance criterion: the run reporting more poles holds at least as many poles whose frequency
+            # variance lies within VAR_EDGE of the cov_max threshold as the counts differ
+            rb, pb = (r0, p0) if n0 > n1 else (r1, p1)
+            near = np.abs(rb.Fn_cov[pb, o] - rb.cov_max) <= VAR_EDGE * rb.cov_max
+            if int(near.sum()) >= abs(n0 - n1):
+                t.not_judged += 1
+                t.outcomes["pole count differs on a knife edge of the variance criterion (not judged)"] += 1
+                continue
         if n0 != n1:
             t.violation(f"pole-count:{where}", f"order column {o}: {n0} poles in the original run, {n1} in the transformed one", case)
             continue
@@ -374,6 +413,8 @@ def compare_poles(t, r0, r1, L, k, tol, where, case):
             t.err(f"pole mismatch {where.split(':')[0]}", tot.max())
             if int(l0.sum()):
                 t.outcomes["stable poles matched"] += int(l0.sum())
+            if getattr(r0, "unc", False):
+                observe_variance(t, r0.Fn_cov[i0[ri], o] * k ** 2, r1.Fn_cov[i1[ci], o])
             continue
         # diagnose: values first, labels second
         cost2 = np.where(d <= tol, d, BIG)
@@ -396,6 +437,20 @@ def compare_poles(t, r0, r1, L, k, tol, where, case):
                     f"(fn {f0[a]:.8g} vs {f1[b]:.8g}, xi {x0[a]:.6g} vs {x1[b]:.6g})", case)
     if npoles:
         t.outcomes[f"pole tables compared ({r0.fam})"] += 1
+        if getattr(r0, "unc", False):
+            t.outcomes["uncertainty bounds on: pole tables compared"] += 1
+
+
+def observe_variance(t, v0, v1):
+    """Frequency variance of the matched poles of one order column (uncertainty bounds on). OBSERVED, not judged: in exact
+    arithmetic Fn_cov' = k^2 Fn_cov, but the propagation inverts matrices whose condition grows like (s_1 / s_n)^2 of the Hankel
+    singular values, so no tolerance can be stated for the higher orders (seen: 1e-15 under the time unit, up to 3e-3 under gain /
+    permutation for ordmax close to the rank of the Hankel matrix); the variance tables are property C17's business."""
+    ok = np.isfinite(v0) & np.isfinite(v1) & (v0 > 0)
+    if ok.any():
+        t.err("frequency variance of matched poles vs k^2 x original (uncertainty bounds on; observed only, not judged)",
+              np.max(np.abs(v1[ok] - v0[ok]) / v0[ok]))
+    t.outcomes["uncertainty bounds on: matched poles carrying a frequency variance in both runs"] += int(ok.sum())
 
 
 def const_fit(a, b):
@@ -490,8 +545,9 @@ def compare_mpe(t, r0, r1, L, k, tol, where, case):
             bad.append(f"Xi differs by {e:.3g} ({X0[ok][:3]} vs {X1[ok][:3]})")
     P0 = (L @ np.asarray(m0["Phi"]))[:, ok].T
     P1 = np.asarray(m1["Phi"])[:, ok].T
-    unit_check(t, np.asarray(m0["Phi"]).T, where, case)
-    unit_check(t, np.asarray(m1["Phi"]).T, where, case)
+    nu = unit_check(t, np.asarray(m0["Phi"]).T, where, case) + unit_check(t, np.asarray(m1["Phi"]).T, where, case)
+    if getattr(r0, "unc", False) and nu:
+        t.outcomes["uncertainty bounds on: unit largest component verified (extracted modes)"] += nu
     kk = np.argmax(np.abs(P0), axis=1)
     ar = np.arange(len(P0))
     e = float(np.max(np.abs(P0 / P0[ar, kk][:, None] - P1 / P1[ar, kk][:, None])))
@@ -524,6 +580,8 @@ def run_pair(t, seed, kind, nch, variant, setting, tr, cache=None):
     cls, fam, kw = VARIANTS[variant]
     ms = cls.endswith("_MS")
     case = {"seed": seed, "record": kind, "nch": nch, "variant": variant, "setting": setting, "transformation": [tr[0], tr[1]]}
+    if kw.get("calc_unc"):
+        case["uncertainty_bounds_on_with_nb_blocks"] = unc_blocks(setting)
     Y = build_inputs(seed, kind, nch, ms)
     nn = 6 if ms else nch
     runs = []
@@ -557,6 +615,8 @@ def run_pair(t, seed, kind, nch, variant, setting, tr, cache=None):
     if judge(t, r0, r1, L, k, fam, cls, where, case):
         t.outcomes[f"pair {tr[0]}"] += 1
         t.outcomes[f"pair {cls}"] += 1
+        if kw.get("calc_unc"):
+            t.outcomes[f"uncertainty bounds on: pair {tr[0]}"] += 1
         t.nontrivial.add((kind, nch, variant, tuple(sorted(setting.items())), tr[0], repr(tr[1])))
 
 
@@ -666,6 +726,8 @@ def run_reuse(t, seed, kind, nch, variant, setting, steps):
         where = f"{fam}:{sk}@same-object:{variant}"
         if judge(t, r0, r1, L, k, fam, cls, where, case):
             t.outcomes[f"same-object pair {sk}"] += 1
+            if kw.get("calc_unc"):
+                t.outcomes[f"uncertainty bounds on: same-object pair {sk}"] += 1
             if g != 1.0 and k != 1.0:
                 t.outcomes["same-object pair composite (in-place gain/permutation, then another time unit)"] += 1
             t.nontrivial.add((kind, nch, variant, tuple(sorted(setting.items())), "same-object", repr(steps[:i + 1])))
@@ -769,6 +831,11 @@ def lattice(ctx):
             "coverage": "every variant x record kind x setting" + (" x channel count; the sequence (a quick sequence continued by a tail) rotates with the setting and the channel count" if th else "; channel count and sequence rotate with the setting")},
         "records": {"kinds": kinds + ["counts (int64 raw counts of the response record; integer gains 1000 and -1)"], "samples": NREC, "fs": FS, "channels (single setup)": nchs, "multi-setup": "6-channel record split into 2 data sets of 4 columns sharing 2 references"},
         "algorithm variants": list(VARIANTS),
+        "uncertainty bounds": {"variants": [v for v in VARIANTS if VARIANTS[v][2].get("calc_unc")],
+                               "nb (data blocks) per ssi setting": {repr(st): unc_blocks(st) for st in settings("ssi", th)},
+                               "cov_max": f"{COV_MAX} x k^2 (Hz^2 in the declared time unit)",
+                               "judged": "like every other variant (unit largest component, pole tables, extraction; fresh-copy pairs, integer-count "
+                                         "records, same-object sequences); frequency variance of matched poles observed only"},
         "settings": {f: settings(f, th) for f in ("fdd", "efdd", "ssi", "plscf")},
         "transformations": {"gain": [g for kd, g in transformations(4, th, False) if kd == "gain"],
                             "time unit k": [g for kd, g in transformations(4, th, False) if kd == "time"],
@@ -785,6 +852,11 @@ def explore(ctx):
                 "same-object pair composite (in-place gain/permutation, then another time unit)")
     ctx.require("looked at the records before the run: plot_ch_info", "looked at the records before the run: plot_data",
                 "looked at the records before the run: plot_STFT")
+    ctx.require(*[f"uncertainty bounds on: pair {x}" for x in ("gain", "perm", "mix", "time")],
+                *[f"uncertainty bounds on: same-object pair {x}" for x in ("gain", "perm", "time")],
+                "uncertainty bounds on: pole tables compared", "uncertainty bounds on: unit largest component verified (pole tables)",
+                "uncertainty bounds on: unit largest component verified (extracted modes)",
+                "uncertainty bounds on: matched poles carrying a frequency variance in both runs")
     ctx.require("pair gain", "pair perm", "pair mix", "pair time", "stable poles matched", "unit largest component verified",
                 "pole tables compared (ssi)", "pole tables compared (plscf)", "extraction compared (ssi)",
                 "extraction compared (plscf)", "extraction compared (fdd)", "extraction compared (efdd)",
